@@ -1,7 +1,7 @@
 #!/bin/sh
 # Entry point used by MANIFEST.json: (re)build the driver if needed, then run it.
 # usage: ./check.sh <ID> [--tier quick|thorough] [--replay file] ...
-cd /verif || exit 2
+cd "$(dirname "$0")" || exit 2
 export GOFLAGS=-mod=mod GOPROXY=off GOSUMDB=off GOTOOLCHAIN=local CGO_ENABLED=0
 GO=/opt/veriftools/go1.26.8/bin/go
 [ -x "$GO" ] || GO=go1.26.8
